@@ -45,14 +45,59 @@ class Sym:
     """symbolic object: identity + named fields; method calls go to the client's hook"""
     _n = 0
 
-    def __init__(self, name: str, **fields):
+    def __init__(self, name: str, _open: bool = False, _cls=None, **fields):
         Sym._n += 1
         self.uid = Sym._n
         self.name = name
         self.fields = dict(fields)
+        self.open = _open      # unknown attributes / subscripts yield child terms named by their access path
+        self.cls = _cls        # ClassInfo when the object is an instance of a project class
+        self.parent = None     # (parent Sym, attribute) for children of open terms
+        self.items = {}
 
     def __repr__(self):
         return f"<{self.name}>"
+
+
+class Lin:
+    """linear form over symbolic terms: sum(coef * term) + const"""
+
+    def __init__(self, terms=None, const=0):
+        self.terms = {k: v for k, v in (terms or {}).items() if v != 0}
+        self.const = const
+
+    @staticmethod
+    def of(v):
+        if isinstance(v, Lin):
+            return v
+        if isinstance(v, Sym):
+            return Lin({v.name: 1})
+        if isinstance(v, bool):
+            return Lin({}, int(v))
+        if isinstance(v, (int, float)):
+            return Lin({}, v)
+        raise Unknown("arithmetic on this value")
+
+    def add(self, o, sign=1):
+        t = dict(self.terms)
+        for k, v in o.terms.items():
+            t[k] = t.get(k, 0) + sign * v
+        return Lin(t, self.const + sign * o.const)
+
+    def scale(self, c):
+        return Lin({k: v * c for k, v in self.terms.items()}, self.const * c)
+
+    def simplify(self):
+        return self.const if not self.terms else self
+
+    def key(self):
+        return (tuple(sorted(self.terms.items())), self.const)
+
+    def __repr__(self):
+        parts = [(f"{v}*" if v != 1 else "") + k for k, v in sorted(self.terms.items())]
+        if self.const or not parts:
+            parts.append(str(self.const))
+        return " + ".join(parts)
 
 
 class Closure:
@@ -290,6 +335,16 @@ class MiniInterp:
         raise Unknown(f"iteration over {type(v).__name__}")
 
     def binop(self, op, a, b, node):
+        if isinstance(a, (Sym, Lin)) or isinstance(b, (Sym, Lin)):
+            if isinstance(op, (ast.Add, ast.Sub)):
+                return Lin.of(a).add(Lin.of(b), 1 if isinstance(op, ast.Add) else -1).simplify()
+            if isinstance(op, ast.Mult):
+                la, lb = Lin.of(a), Lin.of(b)
+                if not la.terms:
+                    return lb.scale(la.const).simplify()
+                if not lb.terms:
+                    return la.scale(lb.const).simplify()
+            raise Unknown(f"non-linear arithmetic {type(op).__name__} on symbolic terms")
         try:
             if isinstance(op, ast.Add):
                 return a + b
@@ -346,6 +401,8 @@ class MiniInterp:
             if isinstance(n.op, ast.Not):
                 return not self.truth(v)
             if isinstance(n.op, ast.USub):
+                if isinstance(v, (Sym, Lin)):
+                    return Lin.of(v).scale(-1).simplify()
                 return -v
             raise Unknown("unary operator")
         if isinstance(n, ast.BinOp):
@@ -375,6 +432,11 @@ class MiniInterp:
                     return obj[self.key(k) if isinstance(obj, dict) else k]
                 except (KeyError, IndexError, TypeError) as e:
                     raise PyRaise(EXC_OF.get(type(e), "Exception"), n)
+            if isinstance(obj, Sym) and obj.open:
+                kk = repr(k)
+                if kk not in obj.items:
+                    obj.items[kk] = Sym(f"{obj.name}[{k.name if isinstance(k, Sym) else kk}]", _open=True)
+                return obj.items[kk]
             raise Unknown(f"subscript of {type(obj).__name__}")
         if isinstance(n, ast.Attribute):
             obj = self.ev(n.value, env, fi)
@@ -454,6 +516,21 @@ class MiniInterp:
                 r = self.hook(self, "getattr", obj, attr, None, node, fi)
                 if r is not NotImplemented:
                     return r
+            if obj.cls is not None:
+                m = obj.cls.find_method(attr)
+                if m is not None:
+                    if m.is_property():
+                        return self.call(self.prj.func(m.qual), [], {}, obj)
+                    return BoundFunc(m, obj)
+                for c in obj.cls.mro():
+                    if attr in c.class_attrs and c.class_attrs[attr] is not None:
+                        f0 = next(iter(c.methods.values()), fi)
+                        return self.ev(c.class_attrs[attr], {}, f0)
+            if obj.open:
+                ch = Sym(f"{obj.name}.{attr}", _open=True)
+                ch.parent = (obj, attr)
+                obj.fields[attr] = ch
+                return ch
             return ("method", obj, attr)
         if isinstance(obj, tuple) and obj and obj[0] == "module":
             m = obj[1]
@@ -514,29 +591,16 @@ class MiniInterp:
             raise Unknown("star arguments")
         args = [self.ev(a, env, fi) for a in n.args]
         kwargs = {k.arg: self.ev(k.value, env, fi) for k in n.keywords}
+        if isinstance(f, Sym) and f.parent is not None:
+            f.parent[0].fields.pop(f.parent[1], None)
+            f = ("method", f.parent[0], f.parent[1])
         if self.hook:
             r = self.hook(self, "call", f, args, kwargs, n, fi)
             if r is not NotImplemented:
                 return r
-        if isinstance(f, BoundFunc):
-            return self.call(self.prj.func(f.fi.qual), args, kwargs, f.self_obj)
-        if isinstance(f, Closure):
-            if isinstance(f.node, ast.Lambda):
-                e2 = dict(f.env)
-                for p, a in zip([x.arg for x in f.node.args.args], args):
-                    e2[p] = a
-                return self.ev(f.node.body, e2, f.fi)
-            sub = f.fi.nested.get(f.node.name)
-            if sub is None:
-                raise Unknown("nested function")
-            e2 = dict(f.env)
-            for p, a in zip(sub.params(), args):
-                e2[p] = a
-            try:
-                self.block(sub.node.body, e2, sub)
-            except _Ret as r:
-                return r.v
-            return None
+        r = self.call_callable(f, args, kwargs)
+        if r is not NotImplemented:
+            return r
         if isinstance(f, tuple) and f and f[0] == "native":
             _, obj, attr = f
             try:
@@ -560,10 +624,38 @@ class MiniInterp:
                 raise Unknown("copy of a value without hook")
             raise Unknown(f"external call {f[1]}")
         if isinstance(f, tuple) and f and f[0] == "class":
-            raise Unknown(f"construction of {f[1].name}")
+            return self.construct(f[1], args, kwargs, n, fi)
         if isinstance(f, tuple) and f and f[0] == "method":
+            cands = [m for m in self.prj.methods_named(f[2])]
+            if len(cands) == 1 and f[1].cls is None:
+                return self.call(self.prj.func(cands[0].qual), args, kwargs, f[1])
             raise Unknown(f"method {f[2]} of {f[1]}")
         raise Unknown(f"call of {type(f).__name__}")
+
+    def construct(self, ci, args, kwargs, node, fi):
+        obj = Sym(ci.name + "()", _cls=ci)
+        init = ci.find_method("__init__")
+        if init is not None:
+            self.call(self.prj.func(init.qual), args, kwargs, obj)
+            return obj
+        fields = ci.dataclass_fields() if hasattr(ci, "dataclass_fields") else None
+        if fields is None:
+            if args or kwargs:
+                raise Unknown(f"construction of {ci.name}")
+            return obj
+        names = [f for f, _ in fields]
+        if len(args) > len(names):
+            raise Unknown(f"too many arguments for {ci.name}")
+        for nm, a in zip(names, args):
+            obj.fields[nm] = a
+        for k, v in kwargs.items():
+            obj.fields[k] = v
+        for nm, default in fields:
+            if nm not in obj.fields:
+                if default is None:
+                    raise Unknown(f"missing field {nm} of {ci.name}")
+                obj.fields[nm] = self.ev(default, {}, fi)
+        return obj
 
     def builtin(self, name, args, kwargs, node):
         try:
@@ -621,15 +713,56 @@ class MiniInterp:
             raise Unknown(f"builtin {name}: {e}")
         raise Unknown(f"builtin {name}")
 
-    def apply(self, f, args):
-        if isinstance(f, Closure) and isinstance(f.node, ast.Lambda):
-            e2 = dict(f.env)
-            for p, a in zip([x.arg for x in f.node.args.args], args):
-                e2[p] = a
-            return self.ev(f.node.body, e2, f.fi)
+    def call_callable(self, f, args, kwargs):
         if isinstance(f, BoundFunc):
-            return self.call(self.prj.func(f.fi.qual), args, {}, f.self_obj)
-        raise Unknown("callable")
+            return self.call(self.prj.func(f.fi.qual), args, kwargs, f.self_obj)
+        if isinstance(f, Closure):
+            if isinstance(f.node, ast.Lambda):
+                e2 = dict(f.env)
+                ps = [x.arg for x in f.node.args.args]
+                for p, a in zip(ps, args):
+                    e2[p] = a
+                for i, d in enumerate(reversed(f.node.args.defaults)):
+                    pn = ps[len(ps) - 1 - i]
+                    if pn not in e2 or len(args) <= ps.index(pn):
+                        if pn not in kwargs and len(args) <= ps.index(pn):
+                            e2[pn] = self.ev(d, f.env, f.fi)
+                e2.update(kwargs)
+                return self.ev(f.node.body, e2, f.fi)
+            sub = f.fi.nested.get(f.node.name) or f.fi
+            e2 = dict(f.env)
+            aa = f.node.args
+            ps = [x.arg for x in aa.posonlyargs + aa.args]
+            defaults = dict(zip(ps[len(ps) - len(aa.defaults):], aa.defaults))
+            for x, d in zip(aa.kwonlyargs, aa.kw_defaults):
+                ps.append(x.arg)
+                if d is not None:
+                    defaults[x.arg] = d
+            bound = set()
+            for p, a in zip(ps, args):
+                e2[p] = a
+                bound.add(p)
+            for k, v in kwargs.items():
+                e2[k] = v
+                bound.add(k)
+            for p in ps:
+                if p not in bound:
+                    if p in defaults:
+                        e2[p] = self.ev(defaults[p], f.env, f.fi)
+                    else:
+                        raise Unknown(f"missing argument {p}")
+            try:
+                self.block(f.node.body, e2, sub)
+            except _Ret as r:
+                return r.v
+            return None
+        return NotImplemented
+
+    def apply(self, f, args):
+        r = self.call_callable(f, args, {})
+        if r is NotImplemented:
+            raise Unknown("callable")
+        return r
 
 
 class _Iter:
